@@ -73,7 +73,7 @@ TESTED_NOT_PROVED = [
     "explicit_hydrogen=True exports of graphs with implicit hydrogens; core=False (full) exports on ITS graphs outside its_ok; h_to_explicit "
     "with its=True beyond the total count: correspondence + oracle only",
 ]
-LEVEL_TEXT = ("Machine-checked proof (Coq, 26 theorems, closed under the global context) over an executable model of the GML writer/reader at "
+LEVEL_TEXT = ("Machine-checked proof (Coq, 27 theorems, closed under the global context) over an executable model of the GML writer/reader at "
               "record level, of its_to_gml / gml_to_its / smart_to_gml / get_rc / its_decompose / ITSGraph at graph level, of h_to_explicit / "
               "h_to_implicit, and of the attribute copying of MolToGraph / GraphToMol: label round trip for every element symbol and every "
               "charge; ITS -> GML -> ITS restores atoms, both-side charges and (before, after) orders for every reaction-centre-shaped ITS, "
@@ -1037,6 +1037,11 @@ def _oracle_hist(case):
                     fails.append(_fail("H-molecule", "%s: heavy atoms / bonds changed" % tag))
             last_obs[st["as"]] = gr_ord_obs(val)
         elif op == "variants":
+            rec = mol_record(st["smiles"])
+            if rec is not None:     # premise of C10_light_weight_same_graph: atom.GetBonds() lists exactly the atom's bonds
+                inc = [sorted([e, o] if b == i else [b, o] for b, e, o in rec["bonds"] if i in (b, e)) for i in range(len(rec["atoms"]))]
+                if [sorted(x) for x in rec["abonds"]] != inc:
+                    fails.append(_fail("rdkit-contract", "%s: atom.GetBonds() of %r does not list exactly the bonds of each atom" % (tag, st["smiles"])))
             for d, u, lw, dt in val:
                 ref = _ref_graph(st["smiles"], d, u, set(_KNOWN), True)
                 if ref is not None:
